@@ -291,6 +291,78 @@ Section Invariant.
   Qed.
 End Invariant.
 
+(** ** The wrappers around [DFTProfile::solve] ([PoreProfile::solve_inplace], [PlanarInterface::solve_inplace])
+
+    A wrapper holds the profile and optional observables (grand potential and interfacial tension Omega + p V of a
+    pore; surface tension of an interface).  [solve_inplace] solves the profile and, on success, OVERWRITES the
+    observables with those of the profile it now holds; an error leaves the call without a result ([?]).
+    [obs1 / obs2] are arbitrary functions of the profile, [solve] is any solver (any chain, any debug flag). *)
+Section Wrapper.
+  Variable P : Type.
+  Variable obs1 obs2 : P -> Q.
+  Variable solve : P -> option P.
+
+  Record wrapper := mkWrapper { w_profile : P; w_obs1 : option Q; w_obs2 : option Q }.
+
+  Definition solve_inplace (w : wrapper) : option wrapper :=
+    match solve (w_profile w) with
+    | None => None
+    | Some p' => Some (mkWrapper p' (Some (obs1 p')) (Some (obs2 p')))
+    end.
+
+  (** anything a user may do between two calls: replace the profile (density, specification, bulk state, external
+      potential) and/or the stored observables ([update_bulk] resets them to None) *)
+  Inductive action :=
+  | ASolve
+  | ASet (f : wrapper -> wrapper).
+
+  Fixpoint run (acts : list action) (w : wrapper) : option wrapper :=
+    match acts with
+    | [] => Some w
+    | ASolve :: rest => match solve_inplace w with None => None | Some w' => run rest w' end
+    | ASet f :: rest => run rest (f w)
+    end.
+
+  Theorem solve_inplace_observables_belong_to_profile w w' :
+    solve_inplace w = Some w' ->
+    w_obs1 w' = Some (obs1 (w_profile w')) /\ w_obs2 w' = Some (obs2 (w_profile w')).
+  Proof.
+    unfold solve_inplace. destruct (solve (w_profile w)) as [p'|]; [|discriminate].
+    intros H. inversion H; subst. simpl. auto.
+  Qed.
+
+  (** for every history of calls that ends with a successful [solve_inplace], whatever the wrapper held before *)
+  Theorem history_observables_belong_to_profile acts w w' :
+    run (acts ++ [ASolve]) w = Some w' ->
+    w_obs1 w' = Some (obs1 (w_profile w')) /\ w_obs2 w' = Some (obs2 (w_profile w')).
+  Proof.
+    revert w. induction acts as [|a acts IH]; intros w H; simpl in H.
+    - destruct (solve_inplace w) as [w1|] eqn:E; [|discriminate]. inversion H; subst.
+      eapply solve_inplace_observables_belong_to_profile; eassumption.
+    - destruct a as [|f].
+      + destruct (solve_inplace w) as [w1|]; [|discriminate]. eapply IH; eassumption.
+      + eapply IH; eassumption.
+  Qed.
+
+  (** keeping a value that is already present ([Option::get_or_insert]) instead of overwriting it is refuted by
+      any second call that changes the observable *)
+  Definition solve_inplace_keep (w : wrapper) : option wrapper :=
+    match solve (w_profile w) with
+    | None => None
+    | Some p' => Some (mkWrapper p' (match w_obs1 w with Some v => Some v | None => Some (obs1 p') end)
+                                   (match w_obs2 w with Some v => Some v | None => Some (obs2 p') end))
+    end.
+End Wrapper.
+
+Example solve_inplace_keep_refuted :
+  exists (obs : nat -> Q) (solve : nat -> option nat) (w w1 w2 : wrapper nat),
+    solve_inplace_keep nat obs obs solve w = Some w1 /\ solve_inplace_keep nat obs obs solve w1 = Some w2 /\
+    w_obs1 nat w2 <> Some (obs (w_profile nat w2)).
+Proof.
+  exists (fun n => inject_Z (Z.of_nat n)), (fun n => Some (S n)), (mkWrapper nat 0 None None).
+  eexists. eexists. split; [reflexivity|]. split; [reflexivity|]. simpl. intros H. inversion H.
+Qed.
+
 (** ** The implementation's instance: evaluating does not change the profile.
 
     State = (profile, log); [el] is the residual norm of a profile; evaluation appends the norm to the log and
